@@ -62,7 +62,7 @@ func locCode(name string) int {
 	h := fnv.New32a()
 	_, _ = h.Write([]byte(name))
 
-	return int(h.Sum32()%999983) + 1
+	return int(h.Sum32()%99991) + 1
 }
 
 func main() {
@@ -167,9 +167,17 @@ func (sc *scanner) result(repo string) *output {
 	}
 	for l := range locs {
 		o.Locs = append(o.Locs, l)
-		o.LocCodes[l] = locCode(l)
 	}
 	sort.Strings(o.Locs)
+	usedCodes := map[int]bool{}
+	for _, l := range o.Locs {
+		c := locCode(l)
+		for usedCodes[c] {
+			c = c%99991 + 1 // deterministic probing keeps codes distinct
+		}
+		usedCodes[c] = true
+		o.LocCodes[l] = c
+	}
 	for l := range locks {
 		o.Locks = append(o.Locks, l)
 	}
